@@ -37,11 +37,11 @@ RULE = ("programs: (a) gen_prog corpus (module / function mode), also renamed wi
         "specs and debugging `=`, and user names used as variables, parameters, attributes and keyword arguments, "
         "rendered with keyword / non-ASCII / mixed / plain names; (c) explicit keyword-hazard programs (global/nonlocal/"
         "comprehension leak of a keyword name, class patterns with keyword attributes, dotted imports with a keyword "
-        "component, attributes named None/True/False); (d) sources of the C04/C06/C07/C08 generators when importable. "
+        "component, attributes named None/True/False, class patterns with keyword attributes that need mangling); (d) sources of the C04/C06/C07/C08 generators when importable. "
         "Non-trivial = the compiled AST has a hoisted statement (_hy_ name), a minced keyword or a non-trivial "
         "constant (float, complex, bytes, non-ASCII or quoted string, f-string); distinct by program text.")
 FLOOR = {"quick": 1000, "thorough": 1000}
-BUDGET = {"quick": 30, "thorough": 480}
+BUDGET = {"quick": 20, "thorough": 480}
 CASE_TIMEOUT = 30
 NEEDS_EVENTS = True
 ANCHORS = ["hy.cmdline:hy2py_worker", "hy.compat:rewriting_unparse"]
@@ -66,6 +66,7 @@ K_DOTTED = "keyword-component-of-dotted-module-name-not-minced"
 K_NAN = "complex-constant-with-nan-imaginary-part"
 K_NEG = "negative-constant-as-power-base-or-trailer-target"
 K_CONST = "attribute-or-module-named-True-False-None"
+K_KWD = "class-pattern-keyword-attribute-not-mangled"
 
 VERIF = os.path.dirname(os.path.dirname(os.path.abspath(__file__)))
 _ST = {"captured": 0, "recompiled": 0, "cli": 0, "cli_fail": 0, "signed_zero_only": 0, "n": 0}
@@ -79,7 +80,11 @@ _OPTS = argparse.Namespace(with_source=False, with_ast=False, without_python=Fal
 def hazard(rng):
     kw = rng.sample(O.KEYWORDS, 3)
     a, b, c = kw
-    k = rng.randrange(9)
+    k = rng.randrange(10)
+    if k == 9:
+        at = rng.choice(["my-attr", "is-ok?", "über-x", "a-b-c"])
+        return "class-pattern-mangled-kw", (f"(setv o (Point 1 2))\n(setv o.{at} 5)\n"
+                                            f"(setv RESULT (match o (Point :{at} v :x 1) (L 1 v) _ (L 2 0)))")
     if k == 0:
         return "global-kw", (f"(setv {a} 0 {b} 0)\n(defn f [] (global {a} {b}) (setv {a} (L 1 5) {b} 2) {a})\n"
                              f"(setv RESULT (f))\n(setv FINAL [{a} {b}])")
@@ -437,9 +442,22 @@ def norm_const(tree):
     return t, t
 
 
+def feat_kwd(tree):
+    return any(isinstance(n, ast.MatchClass) and any(not a.isidentifier() for a in n.kwd_attrs) for n in ast.walk(tree))
+
+
+def norm_kwd(tree):
+    t = copy.deepcopy(tree)
+    for n in ast.walk(t):
+        if isinstance(n, ast.MatchClass):
+            n.kwd_attrs = [a if a.isidentifier() else O.mangle(a) for a in n.kwd_attrs]
+    return t, t
+
+
 # key -> (feature, normaliser, symptom the mechanism explains)
 # (normalisers that change the program come first, pure unparse repairs after them)
 MECH = [(K_NAN, feat_nan, norm_nan, "parse"), (K_CONST, feat_const, norm_const, "parse"),
+        (K_KWD, feat_kwd, norm_kwd, "parse"),
         (K_LIST, feat_list, norm_list, "parse"), (K_DOTTED, feat_dotted, norm_dotted, "parse"),
         (K_NEG, feat_neg, norm_neg, "behaviour")]
 
@@ -473,30 +491,32 @@ judge.last = None
 
 
 def attribute(tree, symptom, modname):
-    present = [(k, norm) for k, feat, norm, sym in MECH if sym == symptom and feat(tree)]
-    if not present:
+    """key of the known mechanism that explains the observed symptom, or None. A mechanism is
+    named only if its feature is present and the violation disappears when the known features
+    are normalised away - and reappears (with this symptom first) when this one is left in."""
+    present = [(k, norm, sym) for k, feat, norm, sym in MECH if feat(tree)]
+    if not any(sym == symptom for _, _, sym in present):
         return None
 
-    def fixed(subset):
+    def outcome(subset):
         te = tu = tree
-        for k, norm in subset:
+        for k, norm, _ in subset:
             e2, u2 = norm(tu)
-            # exec tree: the normaliser either keeps the original (pure unparse repair) or changes both
+            # exec tree: the normaliser either keeps its input (pure unparse repair) or changes both
             te = te if e2 is tu else e2
             tu = u2
         try:
             src = ast.unparse(tu)
         except Exception:
-            return False
-        s, _ = judge(te, src, modname)
-        return s is None
-    for k, norm in present:
-        if fixed([(k, norm)]):
-            return k
-    if len(present) > 1 and fixed(present):
-        for k, norm in present:
-            if not fixed([p for p in present if p[0] != k]):
-                return k
+            return "parse"
+        return judge(te, src, modname)[0]
+    for ent in present:
+        if ent[2] == symptom and outcome([ent]) is None:
+            return ent[0]
+    if len(present) > 1 and outcome(present) is None:
+        for ent in present:
+            if ent[2] == symptom and outcome([p for p in present if p is not ent]) == symptom:
+                return ent[0]
     return None
 
 
@@ -526,7 +546,8 @@ def run_case(case):
     install_capture()
     text = case["text"]
     _ST["n"] += 1
-    modname = f"hv14m{_ST['n'] % 7}"
+    # the module name is embedded in the code `require` compiles to; `hy2py -` calls its module "<stdin>"
+    modname = "<stdin>" if case.get("cli") == "stdin" else f"hv14m{_ST['n'] % 7}"
     classes = ["kind:" + case["kind"]] + ["feat:" + f for f in case.get("feats", ())]
     src, tree, err = hy2py_inproc(text, modname)
     if tree is None and err is not None:
